@@ -4,6 +4,7 @@ mod golden;
 mod ledger;
 mod literal;
 mod synproj;
+mod syntax;
 mod loader;
 mod price;
 mod report;
@@ -32,6 +33,7 @@ fn main() {
         "literal" => runner::run_records(&opts, literal::replay),
         "literal-space" => runner::run_records(&opts, literal::replay_space),
         "loader" => { let w = workdir.clone(); runner::run_records(&opts, move |i, r| loader::replay(i, r, &w)) }
+        "syntax" => runner::run_records(&opts, syntax::replay),
         "price" => { let w = workdir.clone(); runner::run_records(&opts, move |i, r| price::replay(i, r, &w)) }
         "report" => { let w = workdir.clone(); runner::run_records(&opts, move |i, r| report::replay(i, r, &w)) }
         _ => {
